@@ -152,7 +152,7 @@ Proof. intros [x ->]. reflexivity. Qed.
 
 Lemma step_inv o s : Inv s -> fresh_ok s o -> Inv (step o s).1.
 Proof.
-  intros HI Hf. destruct o as [auth ext d fresh|auth ext a|auth t|t dead|auth b| |]; cbn [step].
+  intros HI Hf. destruct o as [auth ext d fresh|auth ext a|auth t|coin t dead|auth b| |]; cbn [step].
   - unfold register_coin.
     destruct (negb auth); [exact HI|]. destruct (negb (st_enable s)); [exact HI|].
     destruct (is_some (st_denom s !! d)) eqn:Ed; [exact HI|]. destruct (negb ext); [exact HI|].
@@ -170,6 +170,7 @@ Proof.
     destruct (get_pair_id s t) as [i|]; [|exact HI].
     destruct (get_pair s i) as [p|] eqn:Ep; [|exact HI].
     destruct (negb (p_enabled p)); [exact HI|].
+    destruct (coin && negb (bool_decide (t = p_denom p))); [exact HI|].
     destruct (existsb (Z.eqb (p_addr p)) dead); [|exact HI].
     cbn [fst]. eapply delete_pair_inv; [exact HI|exact Ep].
   - unfold set_enable. destruct (negb auth); [exact HI|].
@@ -343,7 +344,7 @@ Qed.
 (** ** Rejections *)
 Theorem rejected_no_effect o s : (step o s).2 <> Ok -> (step o s).1 = s.
 Proof.
-  destruct o as [auth ext d fresh|auth ext a|auth t|t dead|auth b| |]; cbn [step].
+  destruct o as [auth ext d fresh|auth ext a|auth t|coin t dead|auth b| |]; cbn [step].
   - unfold register_coin. repeat (match goal with |- context [if ?c then _ else _] => destruct c end);
       cbn; congruence.
   - unfold register_erc20. repeat (match goal with |- context [if ?c then _ else _] => destruct c end);
@@ -355,6 +356,7 @@ Proof.
     destruct (get_pair_id s t) as [i|]; [|reflexivity].
     destruct (get_pair s i) as [p|]; [|reflexivity].
     destruct (negb (p_enabled p)); [reflexivity|].
+    destruct (coin && negb (bool_decide (t = p_denom p))); [reflexivity|].
     destruct (existsb _ dead); [cbn; congruence|reflexivity].
   - unfold set_enable. destruct (negb auth); [reflexivity|cbn; congruence].
   - cbn; congruence.
@@ -456,8 +458,8 @@ Proof.
 Qed.
 
 (** ** Removal of a pair whose contract is gone *)
-Theorem delete_all_three t dead s s' :
-  Inv s -> step (OpConvert t dead) s = (s', Ok) ->
+Theorem delete_all_three coin t dead s s' :
+  Inv s -> step (OpConvert coin t dead) s = (s', Ok) ->
   exists p,
     lookup_tok s t = Some p /\ p_addr p ∈ dead /\
     s' = delete_pair p s /\
@@ -471,11 +473,12 @@ Theorem delete_all_three t dead s s' :
     (forall t' q, lookup_tok s' t' = Some q -> p_denom q <> p_denom p /\ p_addr q <> p_addr p).
 Proof.
   intros HI Hs.
-  assert (HI' : Inv s'). { replace s' with (step (OpConvert t dead) s).1 by (rewrite Hs; reflexivity). apply step_inv; [exact HI|exact I]. }
+  assert (HI' : Inv s'). { replace s' with (step (OpConvert coin t dead) s).1 by (rewrite Hs; reflexivity). apply step_inv; [exact HI|exact I]. }
   revert Hs. cbn [step]. unfold convert, lookup_tok. destruct (negb (st_enable s)); [discriminate|].
   destruct (get_pair_id s t) as [i|]; [|discriminate].
   destruct (get_pair s i) as [p|] eqn:Ep; [|discriminate].
   destruct (negb (p_enabled p)); [discriminate|].
+  destruct (coin && negb (bool_decide (t = p_denom p))); [discriminate|].
   destruct (existsb (Z.eqb (p_addr p)) dead) eqn:Ex; [|discriminate].
   intros E. injection E as <-. exists p. unfold get_pair in Ep.
   pose proof (inv_key s HI _ _ Ep) as ->.
@@ -517,7 +520,7 @@ Definition ex_history : list op :=
   [OpRegErc20 true true ex_A; OpRegCoin true true (TPlain 1) ex_B;
    OpRegCoin true true (TPlain 1) ex_C; OpRegErc20 true true ex_B;
    OpToggle true (TPlain 1); OpToggle true (THex ex_A 2); OpToggle true (TPlain 1);
-   OpConvert (TPlain 1) [ex_B]; OpRegCoin true true (TPlain 1) ex_C; OpExportImport].
+   OpConvert true (TPlain 1) [ex_B]; OpRegCoin true true (TPlain 1) ex_C; OpExportImport].
 
 Example ex_history_ok : hist_ok (empty_state true) ex_history.
 Proof. vm_compute. tauto. Qed.
@@ -609,7 +612,7 @@ Proof. split; [apply history_inv, ex_history_ok|]. split; vm_compute; reflexivit
 Example ex_toggle_accepted : exists s', step (OpToggle true (THex ex_A 4)) ex_state = (s', Ok).
 Proof. eexists. vm_compute. reflexivity. Qed.
 
-Example ex_removal_accepted : exists s', step (OpConvert (TPlain 1) [ex_C]) ex_state = (s', Ok).
+Example ex_removal_accepted : exists s', step (OpConvert true (TPlain 1) [ex_C]) ex_state = (s', Ok).
 Proof. eexists. vm_compute. reflexivity. Qed.
 
 (* a listed pair with a hex-shaped denomination that is not shadowed *)
